@@ -13,7 +13,7 @@ from typing import Any, Dict, List, Optional
 
 from props import vt_common
 
-KINDS = vt_common.KINDS
+KINDS = ("vts", "test", "hist")     # the CatchScheduler histories wrap these three (vt_common also has the naive-datetime kind)
 NOCLOCK = 99999   # CatchSched!NoClock: the clock after the final start() is not asserted
 
 
